@@ -85,7 +85,8 @@ func genN(t *rapid.T, l int) int {
 		return l + 1
 	case 6:
 		if rapid.IntRange(0, 39).Draw(t, "nbigkind") == 0 {
-			return rapid.SampledFrom([]int{4096, 4097, 5000, 32768, 40000}).Draw(t, "nbigger")
+			// also at and around the multiples of 2^16 (a slot count kept in 16 bits)
+			return rapid.SampledFrom([]int{4096, 4097, 5000, 32768, 40000, 65535, 65536, 65537, 66000, 131072}).Draw(t, "nbigger")
 		}
 		return rapid.IntRange(1025, 1500).Draw(t, "nbig")
 	default:
@@ -104,7 +105,8 @@ type Case64 struct {
 	Pos   int    `json:"pos"`
 	Slack int    `json:"slack"`
 	Add   int64  `json:"add"`
-	SetI  []int  `json:"set_i"` // Set/Unset script on the word: value = index (0..255), negative = unset(-v-1)
+	Later int    `json:"later,omitempty"` // further rounds of GetN* calls on other words before the kept lists are read again
+	SetI  []int  `json:"set_i"`           // Set/Unset script on the word: value = index (0..255), negative = unset(-v-1)
 }
 
 // genPos: mostly the first few slots; sometimes far into a long slice (real callers chain many bitmaps into one
@@ -124,7 +126,40 @@ func genNHuge(t *rapid.T, pos int) int {
 	if rapid.IntRange(0, 7).Draw(t, "nhugekind") != 0 {
 		return 0
 	}
-	return rapid.SampledFrom([]int{4097, 32767, 32768, 40000, 65536, math.MaxInt32, math.MaxInt32 + 1, math.MaxInt - pos, math.MaxInt - 1, math.MaxInt}).Draw(t, "nhuge")
+	return rapid.SampledFrom(nHuge(pos)).Draw(t, "nhuge")
+}
+
+// nHuge: the limits of the integer widths, and quotas whose low 8, 16 or 32 bits are a small number (a quota kept in
+// a narrower unsigned integer reads as 0, 1, 2 ...).
+func nHuge(pos int) []int {
+	return []int{4097, 32767, 32768, 40000, 65536, math.MaxInt32, math.MaxInt32 + 1, math.MaxInt - pos, math.MaxInt - 1, math.MaxInt,
+		1<<16 + 1, 1<<16 + 2, 3 << 16, 1<<17 + 1, 1<<24 + 1, 1 << 31, math.MaxUint32, 1 << 32, 1<<32 + 1, 1<<32 + 2, 3 << 32, 1<<33 + 1, 1<<40 + 1, 1<<48 + 2}
+}
+
+// genLater: how many further rounds of the same calls are made on other bitmaps before results handed out earlier
+// are read again: mostly none or a few, rarely (one case in a hundred) twenty to three hundred.
+func genLater(t *rapid.T) int {
+	switch k := rapid.IntRange(0, 99).Draw(t, "laterkind"); {
+	case k == 0:
+		return rapid.IntRange(20, 300).Draw(t, "laterlong")
+	case k < 40:
+		return rapid.IntRange(1, 6).Draw(t, "later")
+	}
+	return 0
+}
+
+// laterRounds: the rounds a case affords (a quota of tens of thousands costs that many slots per GetN call).
+func laterRounds(later, n int) int {
+	if later < 0 {
+		return 0
+	}
+	if n > 2000 && later > 3 {
+		return 3
+	}
+	if later > 1000 {
+		return 1000
+	}
+	return later
 }
 
 // skipForBigPos: a position tens of thousands of slots into the slice costs a slice of that length per call, so such
@@ -153,6 +188,7 @@ func Gen64(t *rapid.T) Case64 {
 	c.NHuge = genNHuge(t, c.Pos)
 	c.Slack = rapid.IntRange(0, 2).Draw(t, "slack")
 	c.Add = genAdd(t)
+	c.Later = genLater(t)
 	k := rapid.IntRange(0, 4).Draw(t, "nset")
 	for i := 0; i < k; i++ {
 		v := rapid.SampledFrom([]int{0, 1, 62, 63, 64, 65, 127, 128, 255, 7, 31, 32}).Draw(t, "seti")
@@ -340,6 +376,20 @@ func (k *keptLists) check(res *vkit.Result, ctx string) {
 	}
 }
 
+// twice: the caller writes over the list it was given (it is the caller's), then makes the identical call again: the
+// second list is again the first min(n, Len) members. Both lists are kept.
+func twice[T int8 | int16 | int32 | uint32 | int64](res *vkit.Result, k *keptLists, name string, reverse bool, mem []int, n int, call func(int) []T, ctx string) {
+	if res.Fail != nil {
+		return
+	}
+	first := call(n)
+	for i := range first {
+		first[i] = ^first[i]
+	}
+	keep(k, name+" (written over by the caller)", first)
+	checkGetN(res, name+"/again", reverse, mem, n, keep(k, name, call(n)), ctx+" (identical call repeated after the caller wrote over the first list)")
+}
+
 func checkGetN(res *vkit.Result, name string, reverse bool, mem []int, n int, got []int64, ctx string) {
 	if res.Fail != nil {
 		return
@@ -421,10 +471,45 @@ func Exec64(c Case64) *vkit.Result {
 			checkGetN(res, "Bit64.RGetNAsI8", true, mem, c.N, keep(&kl, "Bit64.RGetNAsI8", w.RGetNAsI8(c.N)), ctx)
 			// the same calls on the complement word (other members), then the lists handed out before are read again
 			if thr == c.Thr {
+				// one width (chosen by the case's own numbers) gets the repeated call and the further rounds
+				width := (c.Slack + len(mem) + c.Pos + len(c.SetI)) % 4
+				switch width {
+				case 0:
+					twice(res, &kl, "Bit64.GetNAsI64", false, mem, c.N, w.GetNAsI64, ctx)
+					twice(res, &kl, "Bit64.RGetNAsI64", true, mem, c.N, w.RGetNAsI64, ctx)
+				case 1:
+					twice(res, &kl, "Bit64.GetNAsI32", false, mem, c.N, w.GetNAsI32, ctx)
+					twice(res, &kl, "Bit64.RGetNAsI32", true, mem, c.N, w.RGetNAsI32, ctx)
+				case 2:
+					twice(res, &kl, "Bit64.GetNAsI16", false, mem, c.N, w.GetNAsI16, ctx)
+					twice(res, &kl, "Bit64.RGetNAsI16", true, mem, c.N, w.RGetNAsI16, ctx)
+				default:
+					twice(res, &kl, "Bit64.GetNAsI8", false, mem, c.N, w.GetNAsI8, ctx)
+					twice(res, &kl, "Bit64.RGetNAsI8", true, mem, c.N, w.RGetNAsI8, ctx)
+				}
+				// the same calls on the complement word (other members), then further rounds on it and on rotations of it
 				cw := ^w
 				_, _, _, _ = cw.GetNAsI64(c.N), cw.RGetNAsI64(c.N), cw.GetNAsI32(c.N), cw.RGetNAsI32(c.N)
 				_, _, _, _ = cw.GetNAsI16(c.N), cw.RGetNAsI16(c.N), cw.GetNAsI8(c.N), cw.RGetNAsI8(c.N)
+				for r, rounds := 1, laterRounds(c.Later, c.N); r <= rounds && res.Fail == nil; r++ {
+					if r%2 == 0 {
+						cw = bitmap1024.Bit64(bits.RotateLeft64(^model, 5*(r/2)))
+					}
+					switch width {
+					case 0:
+						_, _ = cw.GetNAsI64(c.N), cw.RGetNAsI64(c.N)
+					case 1:
+						_, _ = cw.GetNAsI32(c.N), cw.RGetNAsI32(c.N)
+					case 2:
+						_, _ = cw.GetNAsI16(c.N), cw.RGetNAsI16(c.N)
+					default:
+						_, _ = cw.GetNAsI8(c.N), cw.RGetNAsI8(c.N)
+					}
+				}
 				kl.check(res, ctx)
+				if c.Later >= 20 {
+					res.Class("long-retention")
+				}
 			}
 		}
 	}
@@ -480,6 +565,7 @@ type Case1024 struct {
 	Pos   int      `json:"pos"`
 	Slack int      `json:"slack"`
 	Add   int64    `json:"add"`
+	Later int      `json:"later,omitempty"` // further rounds of algebra and GetN* calls on other bitmaps before kept results are read again
 }
 
 func genWords(t *rapid.T, thr int32, label string) []uint64 {
@@ -530,6 +616,7 @@ func Gen1024(t *rapid.T) Case1024 {
 	c.NHuge = genNHuge(t, c.Pos)
 	c.Slack = rapid.IntRange(0, 2).Draw(t, "slack")
 	c.Add = genAdd(t)
+	c.Later = genLater(t)
 	return c
 }
 
@@ -619,6 +706,11 @@ func Exec1024(c Case1024) *vkit.Result {
 	defer bitmap1024.VerifSetSparseMagic(9)
 	b := toBit1024(c.Words)
 	m := modelOf(c.Words)
+	// Len/NLen are asked before the script and after every step of it, on the same instance
+	cnt := len(m.members())
+	if b.Len() != cnt || b.NLen() != 1024-cnt {
+		return res.Failf("Bit1024.Len", "before the script: Len %d NLen %d, model has %d members", b.Len(), b.NLen(), cnt)
+	}
 	for _, op := range c.Ops {
 		inRange := op.Idx >= 0 && op.Idx < 1024
 		switch {
@@ -632,6 +724,11 @@ func Exec1024(c Case1024) *vkit.Result {
 			b.UnsetI32(op.Idx)
 		}
 		if inRange {
+			if m[op.Idx] && op.Unset {
+				cnt--
+			} else if !m[op.Idx] && !op.Unset {
+				cnt++
+			}
 			m[op.Idx] = !op.Unset
 			res.Class("set-in-range")
 		} else {
@@ -639,6 +736,9 @@ func Exec1024(c Case1024) *vkit.Result {
 		}
 		if i, ok := sameAsModel(b, m); !ok {
 			return res.Failf("Bit1024.Set", "after %+v: membership of %d differs from the model", op, i)
+		}
+		if b.Len() != cnt || b.NLen() != 1024-cnt {
+			return res.Failf("Bit1024.Len/after-set", "after %+v of the script %+v: Len %d NLen %d, model has %d members", op, c.Ops, b.Len(), b.NLen(), cnt)
 		}
 	}
 	mem := m.members()
@@ -677,12 +777,28 @@ func Exec1024(c Case1024) *vkit.Result {
 	// results are values of their own: they stay what they were after further algebra on other operands, and setting
 	// or clearing a member of a result touches neither operand
 	rAnd, rOr, rRev, rOrRev := b.And(o), b.Or(o), b.Reverse(), b.OrThenReverse(o)
+	// the bitmap as its own argument: x AND x = x OR x = x, NOT(x OR x) = NOT x, x = x (the results are sets of their own too)
+	sAnd, sOr, sOrRev := b.And(b), b.Or(b), b.OrThenReverse(b)
+	if !b.Equal(b) || !b.Equal(b[:]) {
+		return res.Failf("Bit1024.Equal/self", "a bitmap is not Equal to itself")
+	}
 	_, _, _, _ = o.And(rRev), o.Or(rAnd), o.Reverse(), o.OrThenReverse(rRev)
-	for _, x := range []struct {
+	if rounds := laterRounds(c.Later, 0); rounds > 0 {
+		others := []bitmap1024.Bit1024{o, b.Reverse(), b, o.Reverse()}
+		for r := 1; r <= rounds; r++ {
+			x, y := others[r%4], others[(r+1)%4]
+			_, _, _, _ = x.And(y), x.Or(y), x.Reverse(), x.OrThenReverse(y)
+		}
+		if c.Later >= 20 {
+			res.Class("long-retention")
+		}
+	}
+	for xi, x := range []struct {
 		name string
 		r    bitmap1024.Bit1024
 		want *model1024
-	}{{"And", rAnd, &and}, {"Or", rOr, &or}, {"Reverse", rRev, &rev}, {"OrThenReverse", rOrRev, &orrev}} {
+	}{{"And", rAnd, &and}, {"Or", rOr, &or}, {"Reverse", rRev, &rev}, {"OrThenReverse", rOrRev, &orrev},
+		{"And(self)", sAnd, m}, {"Or(self)", sOr, m}, {"OrThenReverse(self)", sOrRev, &rev}} {
 		if i, ok := sameAsModel(x.r, x.want); !ok {
 			return res.Failf("Bit1024."+x.name+"/retained", "the result of %s changed after later algebra calls on other operands (bit %d)", x.name, i)
 		}
@@ -695,6 +811,9 @@ func Exec1024(c Case1024) *vkit.Result {
 		}
 		if i, ok := sameAsModel(b, m); !ok {
 			return res.Failf("Bit1024."+x.name+"/aliases-operand", "setting/clearing members of the result of %s changed the receiver (bit %d)", x.name, i)
+		}
+		if xi >= 4 { // the self-argument results: the receiver was the argument
+			continue
 		}
 		if i, ok := sameAsModel(o, om); !ok {
 			return res.Failf("Bit1024."+x.name+"/aliases-operand", "setting/clearing members of the result of %s changed the argument (bit %d)", x.name, i)
@@ -734,9 +853,37 @@ func Exec1024(c Case1024) *vkit.Result {
 			checkGetN(res, "Bit1024.GetNAsI16", false, mem, c.N, keep(&kl, "Bit1024.GetNAsI16", b.GetNAsI16(c.N)), ctx)
 			checkGetN(res, "Bit1024.RGetNAsI16", true, mem, c.N, keep(&kl, "Bit1024.RGetNAsI16", b.RGetNAsI16(c.N)), ctx)
 			if thr == c.Thr {
+				// one width (chosen by the case's own numbers) gets the repeated call and the further rounds
+				width := (c.Slack + len(mem) + c.Pos + len(c.Ops)) % 3
+				switch width {
+				case 0:
+					twice(res, &kl, "Bit1024.GetNAsI64", false, mem, c.N, b.GetNAsI64, ctx)
+					twice(res, &kl, "Bit1024.RGetNAsI64", true, mem, c.N, b.RGetNAsI64, ctx)
+				case 1:
+					twice(res, &kl, "Bit1024.GetNAsI32", false, mem, c.N, b.GetNAsI32, ctx)
+					twice(res, &kl, "Bit1024.RGetNAsI32", true, mem, c.N, b.RGetNAsI32, ctx)
+				default:
+					twice(res, &kl, "Bit1024.GetNAsI16", false, mem, c.N, b.GetNAsI16, ctx)
+					twice(res, &kl, "Bit1024.RGetNAsI16", true, mem, c.N, b.RGetNAsI16, ctx)
+				}
+				// the same calls on the complement (no member in common), then further rounds on it and on the other operand
 				cb := b.Reverse()
 				_, _, _ = cb.GetNAsI64(c.N), cb.RGetNAsI64(c.N), cb.GetNAsI32(c.N)
 				_, _, _ = cb.RGetNAsI32(c.N), cb.GetNAsI16(c.N), cb.RGetNAsI16(c.N)
+				for r, rounds := 1, laterRounds(c.Later, c.N); r <= rounds && res.Fail == nil; r++ {
+					x := cb
+					if r%3 == 2 {
+						x = o
+					}
+					switch width {
+					case 0:
+						_, _ = x.GetNAsI64(c.N), x.RGetNAsI64(c.N)
+					case 1:
+						_, _ = x.GetNAsI32(c.N), x.RGetNAsI32(c.N)
+					default:
+						_, _ = x.GetNAsI16(c.N), x.RGetNAsI16(c.N)
+					}
+				}
 				kl.check(res, ctx)
 			}
 		}
@@ -762,14 +909,14 @@ func wordsOf(m *model1024) []uint64 {
 
 var Part64 = &vkit.Part[Case64]{
 	Property: Property, Name: "bit64",
-	Rule:  "rapid: 64-bit word from a mixture (0, all ones, single bit, popcount = threshold-1/0/+1, sparse, dense, random) x threshold x n (neg,0,1,Len-1,Len,Len+1,big) x pos x add x slack, plus a Set/Unset script; all 10 Iter*/RIter* and 8 GetN* of the 64-bit layer run at the drawn threshold and at 9 against a member list. Non-trivial: 0 < count < Len (cut in the middle) or popcount within +-1 of the threshold; distinct = distinct case JSON",
+	Rule:  "rapid: 64-bit word from a mixture (0, all ones, single bit, popcount = threshold-1/0/+1, sparse, dense, random) x threshold x n (neg,0,1,Len-1,Len,Len+1,big) x pos x add x slack, plus a Set/Unset script; all 10 Iter*/RIter* and 8 GetN* of the 64-bit layer run at the drawn threshold and at 9 against a member list. GetN* lists are kept over 0-6 (one case in a hundred: 20-300) further rounds of calls on other words; for one width the caller writes over its list and repeats the identical call. Non-trivial: 0 < count < Len (cut in the middle) or popcount within +-1 of the threshold; distinct = distinct case JSON",
 	Quick: 80000, Thorough: 150000,
 	Gen: Gen64, Exec: Exec64,
 }
 
 var Part1024 = &vkit.Part[Case1024]{
 	Property: Property, Name: "bit1024",
-	Rule:  "rapid: two 1024-bit maps as 16 words from the same mixture (or empty/full/few words) + a Set/Unset script over in-range, negative, 1023/1024 and huge indices (int16 and int32 entry points) x threshold x n x pos x add x slack; Set/Unset, Len/NLen, And/Or/Reverse/OrThenReverse/Equal, all 8 Iter*/RIter* and 6 GetN* compared with a [1024]bool model at the drawn threshold and at 9. Non-trivial: 0 < count < Len or some word's popcount within +-1 of the threshold; distinct = distinct case JSON",
+	Rule:  "rapid: two 1024-bit maps as 16 words from the same mixture (or empty/full/few words) + a Set/Unset script over in-range, negative, 1023/1024 and huge indices (int16 and int32 entry points) x threshold x n x pos x add x slack; Set/Unset, Len/NLen, And/Or/Reverse/OrThenReverse/Equal, all 8 Iter*/RIter* and 6 GetN* compared with a [1024]bool model at the drawn threshold and at 9. Len/NLen after every step of the script; the bitmap itself as the argument of And/Or/OrThenReverse/Equal; results and lists kept over 0-6 (one case in a hundred: 20-300) further rounds of the same calls on other bitmaps; for one width the caller writes over its list and repeats the identical call. Non-trivial: 0 < count < Len or some word's popcount within +-1 of the threshold; distinct = distinct case JSON",
 	Quick: 32000, Thorough: 60000,
 	Gen: Gen1024, Exec: Exec1024,
 }
